@@ -30,7 +30,11 @@ DEVS = ["SetupInTry", "UnfrozenCleansSubs", "CleanupCollects", "ShutdownContaine
 # The code as it is: FALSE = the deviation is present in /repo.  When a fix is committed flip the constant here
 # (the as-coded model run and the prediction used by the refinement clause follow); until then the check only
 # reports DRIFT 'callback-order' for the fixed behaviour.  C20_FIXED=name,name overrides for experiments.
-_FIXED = {x for x in os.environ.get("C20_FIXED", "").split(",") if x}
+# All six deviations found on the original tree were repaired by `fix:` commits in /repo (see
+# known_findings.json), so the code as it is now equals the ideal design.
+_FIXED = {x for x in os.environ.get(
+    "C20_FIXED", "SetupInTry,UnfrozenCleansSubs,CleanupCollects,ShutdownContained,CloseIdleAtOnce,CancelLostConnHandler"
+).split(",") if x}
 CODE_AS_IS = {d: d in _FIXED for d in DEVS}
 DEV_CLAUSE = {
     "SetupInTry": "RunAppStartupFailureSkipsCleanup",
